@@ -474,13 +474,22 @@ def cases(tier, seed):
                         ops = ['+', '-'] if ty.kind == 'int' else ['+', '-', '*', '/']
                         op = ops[(n + ti + fixed) % len(ops)]
                         which = (n + ki + ti) % 3
-                        if thorough or which == 0: out.append(expr_case('%s1x' % kind, ty, (N,), a1[0], cfg, op, (e + 2,), (other,), src=src))
-                        if thorough or which == 1: out.append(expr_case('%s1t' % kind, ty, (N,), a1[-1], cfg, ops[(n + 1) % len(ops)], src=src))
+                        if thorough or which == 0: out.append(expr_case('%s1x-%s' % (kind, src), ty, (N,), a1[0], cfg, op, (e + 2,), (other,), src=src))
+                        if thorough or which == 1: out.append(expr_case('%s1t-%s' % (kind, src), ty, (N,), a1[-1], cfg, ops[(n + 1) % len(ops)], src=src))
                         lead = a2[0][0]
                         if (thorough or which == 2) and not lead.is_integer() and lead.kind not in ('fix', 'fixlast'):
                             m = len(lead.sel(3))
                             other2 = (ax1('seq', 3 - m, 3, 1, 3, 'pos'), ax1('seq', 0, e, 1, e + 1, 'nl'))
-                            out.append(expr_case('%s2x' % kind, ty, (3, N), a2[0], cfg, op, (3, e + 1), other2, src=src))
+                            out.append(expr_case('%s2x-%s' % (kind, src), ty, (3, N), a2[0], cfg, op, (3, e + 1), other2, src=src))
+            # rank-2 slice of a TensorMap next to a rank-2 slice of a Tensor in one expression (the generic view and the 2-D view
+            # disagree on the meaning of eval(i,j): known defect, kept in families of its own: *2x-map), and next to a plain tensor
+            if ty.kind == 'int' or V <= 8:
+                e = min(V + 1, 5)
+                for ki, kind in enumerate(('seq', 'fseq')):
+                    axes = (ax1(kind, 0, 3, 2, 3, 'pos'), ax1(kind, 1, 1 + 2 * e - 1, 2, 2 * e + 1, 'nl'))
+                    other2 = (ax1('seq', 1, 3, 1, 3, 'pos'), ax1('seq', 0, e, 1, e + 1, 'nl'))
+                    out.append(expr_case('%s2x-map' % kind, ty, (3, 2 * e + 1), axes, cfg, '+', (3, e + 1), other2, src='map', ident='m.e%d' % e))
+                    out.append(expr_case('%s2t-map' % kind, ty, (3, 2 * e + 1), axes, cfg, '-', src='map', ident='m.e%d' % e))
     seen = set(); res = []
     for c in out:
         if c.cid not in seen: seen.add(c.cid); res.append(c)
